@@ -289,6 +289,15 @@ def check(chk):
     chk.judge('query.update_context_id(ctx_counter)' in s and 'ctx_counter += len(ctx)' in s and 'parameters.update(ctx)' in s and 'ctx = query.get_context()' in s, 'C37.batch', be,
               'batch: offset by the running count, bind, merge, advance by the number of bound values', 'batch context arithmetic changed')
     chk.judge(s.index('query.update_context_id(ctx_counter)') < s.index('ctx = query.get_context()') < s.index('ctx_counter += len(ctx)'), 'C37.batch', be, 'offset applied before the context is taken', 'order of offset/bind changed')
+    # every statement of the batch is renumbered, unconditionally, once per pass: clause objects can be shared between queued statements
+    # (DMLQuery.update builds its DELETE from the same condition clauses), so "already numbered" cannot be inferred from the statement's own id
+    loops = [n for n in body_walk(be) if isinstance(n, ast.For) and src(n.iter) == 'self.queries']
+    ok = len(loops) == 1
+    if ok:
+        top = [src(st) for st in loops[0].body]
+        ok = top.count('query.update_context_id(ctx_counter)') == 1 and top.count('ctx = query.get_context()') == 1 and top.count('ctx_counter += len(ctx)') == 1 and \
+            top.index('query.update_context_id(ctx_counter)') < top.index('ctx = query.get_context()') < top.index('ctx_counter += len(ctx)')
+    chk.judge(ok, 'C37.batch', be, 'each queued statement is renumbered unconditionally (top level of the loop) before its context is taken', 'renumbering of a batch statement is conditional or missing: shared clause objects keep the ids of another statement and two placeholders collide')
     chk.require('C37.triple', 100)
     chk.require('C37.lists', 12)
 
